@@ -261,21 +261,17 @@ Fixpoint spec_nextline (d : list Z) : option (list Z * list Z) :=
       else match spec_nextline r with Some (l, t) => Some (c :: l, t) | None => None end
   end.
 
-(* revreadlines: one buffer s (a suffix-chunk of the data before what was already read),
-   pending tail buf -> (lines yielded, new pending) *)
-Fixpoint rfind_eol (s : list Z) (i : nat) (best : option nat) : option nat :=
-  match s with
-  | [] => best
-  | c :: r => rfind_eol r (S i) (if is_eol c then Some i else best)
-  end.
-
+(* revreadlines: one buffer s (the chunk of the data just before what was already read),
+   pending tail buf -> (lines yielded, new pending).  n = max(s.rfind(CR), s.rfind(LF)) is found
+   by scanning s from its end; the line is s[n:] + buf and the loop continues on s[:n]. *)
 Fixpoint rev_chunk (fuel : nat) (s buf : list Z) : list (list Z) * list Z :=
   match fuel with
   | O => ([], buf)
   | S f =>
-      match rfind_eol s 0 None with
-      | None => ([], s ++ buf)
-      | Some n => let (ls, b') := rev_chunk f (firstn n s) [] in ((skipn n s ++ buf) :: ls, b')
+      match span_noeol (rev s) with
+      | (_, []) => ([], s ++ buf)                         (* n == -1: buf = s + buf *)
+      | (tr, c :: ar) =>                                  (* s = rev ar ++ [c] ++ rev tr, n = len ar *)
+          let (ls, b') := rev_chunk f (rev ar) [] in (((c :: rev tr) ++ buf) :: ls, b')
       end
   end.
 
